@@ -164,6 +164,15 @@ def createCommonTime (rnd : α → Int) (ss : List (Summary α)) (firstT : List 
       | some (a, b, d) => .ok (cropT twin (Qats.Pipeline.newTimearray rnd a b d))
       | none => .error .value
 
+/-- `TsDB.is_common_time(names, twin)` on the selected time arrays (no `dtg_ref`); `none`: the call raises. -/
+def isCommonTime (ts : List (List α)) (twin : Option (α × α)) : Option Bool :=
+  match ts.mapM (summary none) with
+  | none => none
+  | some ss =>
+    match checkTimeArrays ss twin none with
+    | .ok tc => some tc.isCommon
+    | .error _ => none
+
 /-! ### `_make_export_friendly_names` -/
 
 /-- `os.path.splitext` (POSIX): the extension starts at the last dot of the last component, leading dots do not count. -/
@@ -266,41 +275,52 @@ def verified (items : List (Str × List α × List α)) : Bool :=
 
 def summaries (sel : List (Entry α)) : Option (List (Summary α)) := sel.mapM fun e => summary e.dtg e.t
 
+/-- Last stage: the final comparison of the processed time arrays, then the writer chosen by the extension. -/
+def stageWrite (r : Req α) (pre : List (Effect α)) (items : List (Str × List α × List α)) : List (Effect α) :=
+  if !verified items then pre ++ [.raise .value]
+  else
+    match r.ext with
+    | .other => pre ++ [.raise .notImplemented]
+    | e => pre ++ .openTarget e :: items.map fun it => .write it.1 it.2.1 it.2.2
+
+/-- Step 5: every series through `TimeSeries.get(**kwargs)` with the options `o`. -/
+def stageProcess (rnd : α → Int) (st : Stages α) (r : Req α) (pre : List (Effect α)) (o : Opts α)
+    (named : List (Str × Entry α)) : List (Effect α) :=
+  match processAll rnd st o named with
+  | (tr, .error e) => pre ++ tr ++ [.raise e]
+  | (tr, .ok items) => stageWrite r (pre ++ tr) items
+
+/-- Step 4: what happens when the time arrays are (not) common within the given options. -/
+def stageDecide (rnd : α → Int) (st : Stages α) (r : Req α) (pre : List (Effect α)) (ss : List (Summary α))
+    (tc : TimeCheck α) (firstT : List α) (named : List (Str × Entry α)) : List (Effect α) :=
+  if tc.isCommon then stageProcess rnd st r pre r.opts named
+  else if r.opts.resample.isSome then stageProcess rnd st r pre r.opts named
+  else if r.force then
+    match createCommonTime rnd ss firstT r.opts.twin with
+    | .ok ct => stageProcess rnd st r (pre ++ [.commonTime]) { r.opts with resample := some (.times ct) } named
+    | .error e => pre ++ [.commonTime, .raise e]
+  else pre ++ [.raise .value]
+
+/-- Step 3: the time-array check. -/
+def stageCheck (rnd : α → Int) (st : Stages α) (r : Req α) (pre : List (Effect α)) (names : List Str)
+    (sel : List (Entry α)) : List (Effect α) :=
+  match summaries sel with
+  | none => pre ++ [.raise .index]
+  | some ss =>
+    match checkTimeArrays ss r.opts.twin r.opts.resample with
+    | .error e => pre ++ [.raise e]
+    | .ok tc => stageDecide rnd st r pre ss tc ((sel.head?.map (·.t)).getD []) (names.zip sel)
+
+/-- Effects before the time check: directories, selection, export-friendly names. -/
+def preamble (r : Req α) : List (Effect α) := (if r.dirMissing then [.mkdirs] else []) ++ [.select, .friendly]
+
 /-- `TsDB.export(filename, names, exist_ok, basename, force_common_time, **kwargs)` on the selected series `sel`. -/
 def exportTrace (cwd : Str) (rnd : α → Int) (st : Stages α) (r : Req α) (sel : List (Entry α)) : List (Effect α) :=
   if r.targetExists && !r.existOk then [.raise .fileExists]
   else
-    let tr0 : List (Effect α) := (if r.dirMissing then [.mkdirs] else []) ++ [.select, .friendly]
     match friendlyNames cwd (sel.map (·.key)) r.basename with
-    | .error e => tr0 ++ [.raise e]
-    | .ok names =>
-      let tr1 := tr0 ++ [.timeCheck]
-      match summaries sel with
-      | none => tr1 ++ [.raise .index]
-      | some ss =>
-        match checkTimeArrays ss r.opts.twin r.opts.resample with
-        | .error e => tr1 ++ [.raise e]
-        | .ok tc =>
-          -- step 4: which options are handed to `TimeSeries.get`
-          let decision : List (Effect α) × Except Err (Opts α) :=
-            if tc.isCommon then ([], .ok r.opts)
-            else if r.opts.resample.isSome then ([], .ok r.opts)
-            else if r.force then
-              match createCommonTime rnd ss ((sel.head?.map (·.t)).getD []) r.opts.twin with
-              | .ok ct => ([.commonTime], .ok { r.opts with resample := some (.times ct) })
-              | .error e => ([.commonTime], .error e)
-            else ([], .error .value)
-          match decision with
-          | (tr2, .error e) => tr1 ++ tr2 ++ [.raise e]
-          | (tr2, .ok o) =>
-            match processAll rnd st o (names.zip sel) with
-            | (tr3, .error e) => tr1 ++ tr2 ++ tr3 ++ [.raise e]
-            | (tr3, .ok items) =>
-              if !verified items then tr1 ++ tr2 ++ tr3 ++ [.raise .value]
-              else
-                match r.ext with
-                | .other => tr1 ++ tr2 ++ tr3 ++ [.raise .notImplemented]
-                | e => tr1 ++ tr2 ++ tr3 ++ .openTarget e :: items.map fun it => .write it.1 it.2.1 it.2.2
+    | .error e => preamble r ++ [.raise e]
+    | .ok names => stageCheck rnd st r (preamble r ++ [.timeCheck]) names sel
 
 /-! ### record-level codecs -/
 
@@ -359,16 +379,26 @@ def wordVal? : Word α → Option α
   | .val v => some v
   | .int _ => none
 
-/-- `read_ts_data(path)` (all records): `ndat` from the first word, number of records from the file length, record `i` at
-word offset `(i+1)·ndat`. `none`: exception (ZeroDivisionError) or words that are not floats. -/
+/-- `k` consecutive records of `ndat` words each (`f.read(4·ndat)` + `unpack`); `none`: short read or words that are not
+floats. -/
+def readRecords (ndat : Nat) : Nat → List (Word α) → Option (List (List α))
+  | 0, _ => some []
+  | k + 1, w =>
+    if (w.take ndat).length != ndat then none
+    else
+      match (w.take ndat).mapM wordVal?, readRecords ndat k (w.drop ndat) with
+      | some row, some rest => some (row :: rest)
+      | _, _ => none
+
+/-- `read_ts_data(path)` (all records): `ndat` from the first word, number of records from the file length, then the
+cursor is put behind the first record (`seek(4·ndat)`) and the time record and the series records are read one after the
+other. `none`: exception (ZeroDivisionError, short read) or words that are not floats. -/
 def decodeTs (w : List (Word α)) : Option (List (List α)) :=
   match w with
   | .int nd :: _ =>
     let ndat := nd.toNat
     if ndat == 0 then none
-    else
-      let nts := w.length / ndat - 2
-      (List.range (nts + 1)).mapM fun i => ((w.drop ((i + 1) * ndat)).take ndat).mapM wordVal?
+    else readRecords ndat (w.length / ndat - 2 + 1) (w.drop ndat)
   | _ => none
 
 /-! #### column-wise ascii (`.dat`) -/
